@@ -122,13 +122,71 @@ def _lp_max_min(W, lo, hi, shift):
     return best, best_x
 
 
+class _LPFamily:
+    """Vectorised version of _lp_max_min for a fixed cone matrix: the constraint matrix of
+    {(d,t): t <= w_n.(d-shift), lo <= d <= hi} depends on W only, so every basis (m+1 linearly
+    independent rows) is inverted once; each query is then a handful of small matrix products."""
+
+    _cache = {}
+
+    def __init__(self, W):
+        W = np.asarray(W, float)
+        K, m = W.shape
+        rows = []
+        for n in range(K):
+            rows.append(np.concatenate([-W[n], [1.0]]))
+        for d in range(m):
+            e = np.zeros(m + 1)
+            e[d] = 1.0
+            rows.append(e.copy())
+            rows.append(-e)
+        self.A = np.array(rows)
+        self.W, self.K, self.m = W, K, m
+        bases, invs = [], []
+        for idx in itertools.combinations(range(len(self.A)), m + 1):
+            if idx[0] >= K:
+                continue
+            Ai = self.A[list(idx)]
+            if abs(np.linalg.det(Ai)) < 1e-12:
+                continue
+            bases.append(idx)
+            invs.append(np.linalg.inv(Ai))
+        self.bases = np.array(bases)
+        self.invs = np.array(invs)
+
+    @classmethod
+    def of(cls, W):
+        key = np.asarray(W, float).tobytes() + bytes(np.asarray(W).shape)
+        if key not in cls._cache:
+            cls._cache[key] = cls(W)
+        return cls._cache[key]
+
+    def max_min(self, lo, hi, shift):
+        """lo, hi: (N, m) arrays (or (m,)); returns array (N,) of max_{d in box} min_n w_n.(d - shift)"""
+        lo = np.atleast_2d(np.asarray(lo, float))
+        hi = np.atleast_2d(np.asarray(hi, float))
+        N = len(lo)
+        shift = np.asarray(shift, float)
+        b = np.empty((N, self.K + 2 * self.m))
+        b[:, : self.K] = -(self.W @ shift)[None, :]
+        for d in range(self.m):
+            b[:, self.K + 2 * d] = hi[:, d]
+            b[:, self.K + 2 * d + 1] = -lo[:, d]
+        scale = np.maximum(1.0, np.max(np.abs(b), axis=1))
+        bb = b[:, self.bases]                                   # (N, nb, m+1)
+        X = np.einsum("bij,nbj->nbi", self.invs, bb)            # (N, nb, m+1)
+        AX = np.einsum("ci,nbi->nbc", self.A, X)                # (N, nb, ncons)
+        feas = np.all(AX <= b[:, None, :] + (1e-9 * scale)[:, None, None], axis=2)
+        t = np.where(feas, X[:, :, -1], -np.inf)
+        return t.max(axis=1)
+
+
 def rect_covered_value(W, l1, u1, l2, u2, slack):
     """v* = max_{z in R1, z' in R2} min_n w_n.(z' - z - s);  'R1 can be covered by R2' <=> v* >= 0."""
     W = np.asarray(W, float)
     l1, u1, l2, u2 = (np.asarray(x, float) for x in (l1, u1, l2, u2))
     s = slack_vec(slack, W.shape[1])
-    v, _ = _lp_max_min(W, l2 - u1, u2 - l1, s)
-    return v
+    return float(_LPFamily.of(W).max_min(l2 - u1, u2 - l1, s)[0])
 
 
 def rect_pess_values(W, l1, u1, l2, u2):
@@ -136,12 +194,8 @@ def rect_pess_values(W, l1, u1, l2, u2):
     (every point of R1 dominates some point of R2) <=> all values >= 0."""
     l1, u1, l2, u2 = (np.asarray(x, float) for x in (l1, u1, l2, u2))
     m = len(l1)
-    vals = []
-    for bits in itertools.product((0, 1), repeat=m):
-        v = np.where(np.array(bits) == 1, u1, l1)
-        val, _ = _lp_max_min(W, v - u2, v - l2, np.zeros(m))
-        vals.append(val)
-    return vals
+    V = np.array([np.where(np.array(bits) == 1, u1, l1) for bits in itertools.product((0, 1), repeat=m)])
+    return list(_LPFamily.of(W).max_min(V - u2[None, :], V - l2[None, :], np.zeros(m)))
 
 
 # ---------------------------------------------------------------------------------------------
